@@ -80,7 +80,10 @@ SeqSetA(q) == {q[i] : i \in DOMAIN q}
 EnumNear(e) == IF ("@enum:" \o e) \in DOMAIN Alias THEN SeqSetA(Alias["@enum:" \o e]) ELSE {}
 EnumNode(e, val) == IF EnumBase(e) = "string" THEN JStr(val) ELSE JInt(val)
 \* custom values of an open enumeration: an ordinary one and a falsy one (when not declared)
-CustomVals(e) == (IF EnumBase(e) = "string" THEN {CustomStr, ""} \cup EnumNear(e) ELSE {CustomInt, 0}) \ EnumVals(e)
+\* ... one next to the declared ones: the same spelling in another letter case / the successor of the largest value
+MaxOf(S) == CHOOSE x \in S : \A y \in S : y <= x
+CustomVals(e) == (IF EnumBase(e) = "string" THEN {CustomStr, ""} \cup EnumNear(e)
+                  ELSE {CustomInt, 0, MaxOf(EnumVals(e)) + 1}) \ EnumVals(e)
 EnumAlpha(e) == {OEnum(e, EnumNode(e, val)) : val \in EnumVals(e)}
                 \cup (IF PyOpen(e) THEN {OEnum(e, EnumNode(e, val)) : val \in CustomVals(e)} ELSE {})
 
